@@ -1227,17 +1227,18 @@ def rule_lookup_before_work(chk, ev, rid):
     stn = ev.node(st)
     gtests = []
     for n in cfg.nodes:
-        if n.kind == "test" and cfg.edge_dominates(n.id, "T", gn):
-            fs = [m for m, lab in cfg.succ[n.id] if lab == "F"]
-            if fs and stn in cfg.reachable(fs[0]):
-                gtests.append((n.id, fs[0]))
+        for lab_in, lab_out in (("T", "F"), ("F", "T")):      # the lookup may sit on either branch of the guard
+            if n.kind == "test" and cfg.edge_dominates(n.id, lab_in, gn):
+                fs = [m for m, lab in cfg.succ[n.id] if lab == lab_out]
+                if fs and stn in cfg.reachable(fs[0]):
+                    gtests.append((n.id, fs[0], lab_out))
     if len(gtests) != 1:
         raise AnalysisError(f"Context.evaluate: expected one bypass guard around the lookup, found {len(gtests)}")
-    gt, bypass = gtests[0]
+    gt, bypass, bypass_label = gtests[0]
     work = [ev.node(c) for c in ev.rec_calls + ev.action_calls]
     chk.floor(rid, len(work), 2, "work sites (recursion, action)")
     for wn in work:
-        ok = wn not in cfg.reachable(cfg.entry, avoid=[gn], avoid_edges=[(gt, "F")])
+        ok = wn not in cfg.reachable(cfg.entry, avoid=[gn], avoid_edges=[(gt, bypass_label)])
         chk.ob(rid, C, ok, f"`{U(cfg.nodes[wn].ast)[:50]}` is reached only after the lookup (or via the bypass edge)",
                cfg.nodes[wn].ast, ev.mod, key="lookup-dominates:" + U(cfg.nodes[wn].ast)[:30])
     # hit branch: the test on the looked-up value
